@@ -61,6 +61,10 @@ type Case struct {
 	// deployment may point at a DRBG / HSM / FIPS wrapper) hands out 1..7 bytes per Read call, as any
 	// io.Reader may. Sequential sub-checks only.
 	ShortEntropy bool `json:",omitempty"`
+	// Decoy: right after every regular handler of the history a second regular handler is built in the same
+	// process from ANOTHER configuration - its key directory registers, for every login name, a key the
+	// forwarded agent holds - and then left alone. The runs use the first handler, as before.
+	Decoy bool `json:",omitempty"`
 }
 
 // shortReader is a legal io.Reader over the real entropy source that returns at most a few bytes per call.
@@ -79,6 +83,35 @@ func (r *shortReader) Read(b []byte) (int, error) {
 }
 
 var entropyMu sync.Mutex
+
+// buildDecoy builds (and abandons) a regular handler whose configuration differs in every option: another key
+// directory - in which every login name is registered with a key the forwarded agent holds -, another validity,
+// another slot table.
+func buildDecoy(p *vh.Proxy, held []string) (string, error) {
+	dir, err := os.MkdirTemp("", "vdecoy")
+	if err != nil {
+		return "", nil
+	}
+	k := "p256b"
+	if len(held) > 0 {
+		k = held[0]
+	}
+	for _, n := range names {
+		os.WriteFile(filepath.Join(dir, n+".pub"), vh.AuthorizedLine(k, n+"@decoy"), 0o644)
+		os.WriteFile(filepath.Join(dir, n), vh.AuthorizedLine(k, n+"@decoy"), 0o644)
+	}
+	conf, err := vh.WriteGensignConfig(dir, vh.HandlerConf{PubKeyDir: dir, ValiditySec: 7200, KeyIdentifiers: map[string]string{"default": "decoy-slot", "rsa": "decoy-rsa"}})
+	if err != nil {
+		return dir, err
+	}
+	conn, err := vh.DialProxy(p)
+	if err != nil {
+		return dir, nil
+	}
+	defer conn.Close()
+	_, err = regular.NewHandler(conf, conn)
+	return dir, err
+}
 
 var names = []string{"alice", "bob", "carol", "alice.pub"}
 var userKeys = []string{"p256b", "ed25519b", "rsa2048b", "p384a"}
@@ -171,6 +204,7 @@ func gen(t *rapid.T) Case {
 	n := rapid.IntRange(1, 4).Draw(t, "nruns")
 	c.Reuse = rapid.Bool().Draw(t, "reuseHandler")
 	c.ShortEntropy = rapid.IntRange(0, 7).Draw(t, "shortEntropy") == 3
+	c.Decoy = rapid.IntRange(0, 3).Draw(t, "decoy") == 1
 	for i := 0; i < n; i++ {
 		l := fmt.Sprintf("run%d", i)
 		var edit map[string]string
@@ -409,6 +443,16 @@ func exec(c Case) (vh.Outcome, error) {
 						return out, vh.Errf("%s: NewHandler failed: %v", where, herr)
 					}
 					h, shared = rh, rh
+					if c.Decoy {
+						ddir, derr := buildDecoy(p, c.Held)
+						if ddir != "" {
+							defer os.RemoveAll(ddir) // stays in place for the rest of the history, like any other directory of the host
+						}
+						if derr != nil {
+							return out, vh.Errf("%s: a second regular handler with another configuration could not be built: %v", where, derr)
+						}
+						out.Classes = append(out.Classes, "second-handler-with-another-configuration")
+					}
 				}
 				handlers = append(handlers, h)
 				fakes = append(fakes, nil)
@@ -689,7 +733,7 @@ func orDefault(name string) string {
 	return name
 }
 
-const rule = "histories of 1..4 runs of gensign.Run sharing one registered-key directory (a third of the later runs first replace, break or delete a '<name>.pub' / '<name>' file) and one scripted forwarded agent; in half of the histories every run uses the same regular.Handler object and forwarded connection, otherwise each run builds its own. In an eighth of the histories the process's entropy source (crypto/rand.Reader) hands out only 1..7 bytes per Read call, as an io.Reader may. Per run: login name (incl. names of other users and 'alice.pub'), namespace policy NONS / NSOK and spellings that are neither (other letter case, a trailing blank, empty, a prefix, both joined), hardware-key flag, client-declared user / host different from the login name (short, or 55..3000 bytes long), parameters built directly or through NewReqParam, agent behaviour {honest, lacks the key, signs with another key, signs other data, replays a signature captured earlier in the history, garbage, empty signature, failure, closes the connection}, handler list of 1..4 entries (in a quarter of the runs all harness handlers report one and the same name - the real handler's or another -, as instances of one handler type do) with at most one real regular handler among accepting harness handlers and harness handlers rejecting with every kind of error (authentication, disabled, invalid parameters, unknown, panic-typed, untyped) or panicking inside Authenticate, and accepting harness handlers whose Generate then fails (generation, configuration or untyped error); a tenth of the directly built parameter sets carry no client attributes at all. Directory: '<n>.pub' and bare '<n>' files holding any user's key (RSA, ECDSA, Ed25519, and the types nobody can answer for through the forwarded agent: security-key types (the honest agent does answer for the sk-ed25519 one, as a token would), a certificate line, DSA), both with different keys, unparsable, absent; a tenth of the key files hold 2..4 lines (keys of any of these kinds, unparsable lines), where a proof under any line's key counts as a proof under a registered key. Oracle: the harness sees every sign request and reply and decides itself (K.Verify over this run's challenge under the registered key) whether the real handler may authenticate; CA call or add-identity => the selected handler is the first in list order that authenticates, earlier ones asked once, later ones never; none => AllAuthFailed, no Generate, no CA call, no add; a handler that crashes while authenticating never counts as authenticated (error returned, no CA call, no add, no later handler used); the first handler that authenticates cannot generate => error, no CA call, no add, no later handler used; a handler authenticates (and generates) => the run succeeds with exactly one request from that handler; challenges are 64 bytes, filled and not mostly predictable text (fewer than 17 zero bytes, at least 36 different byte values: both fail for random bytes with a chance below 1e-14), only under the registered key, pairwise distinct over the history. Non-trivial: an adversarial agent while the key file exists, or a reject before an accept in a list of >= 2."
+const rule = "histories of 1..4 runs of gensign.Run sharing one registered-key directory (a third of the later runs first replace, break or delete a '<name>.pub' / '<name>' file) and one scripted forwarded agent; in half of the histories every run uses the same regular.Handler object and forwarded connection, otherwise each run builds its own. In a quarter of the histories a second regular handler is built in the same process from another configuration (another key directory in which every login name is registered with a key the agent holds, another validity, other slots) right after each handler the runs use. In an eighth of the histories the process's entropy source (crypto/rand.Reader) hands out only 1..7 bytes per Read call, as an io.Reader may. Per run: login name (incl. names of other users and 'alice.pub'), namespace policy NONS / NSOK and spellings that are neither (other letter case, a trailing blank, empty, a prefix, both joined), hardware-key flag, client-declared user / host different from the login name (short, or 55..3000 bytes long), parameters built directly or through NewReqParam, agent behaviour {honest, lacks the key, signs with another key, signs other data, replays a signature captured earlier in the history, garbage, empty signature, failure, closes the connection}, handler list of 1..4 entries (in a quarter of the runs all harness handlers report one and the same name - the real handler's or another -, as instances of one handler type do) with at most one real regular handler among accepting harness handlers and harness handlers rejecting with every kind of error (authentication, disabled, invalid parameters, unknown, panic-typed, untyped) or panicking inside Authenticate, and accepting harness handlers whose Generate then fails (generation, configuration or untyped error); a tenth of the directly built parameter sets carry no client attributes at all. Directory: '<n>.pub' and bare '<n>' files holding any user's key (RSA, ECDSA, Ed25519, and the types nobody can answer for through the forwarded agent: security-key types (the honest agent does answer for the sk-ed25519 one, as a token would), a certificate line, DSA), both with different keys, unparsable, absent; a tenth of the key files hold 2..4 lines (keys of any of these kinds, unparsable lines), where a proof under any line's key counts as a proof under a registered key. Oracle: the harness sees every sign request and reply and decides itself (K.Verify over this run's challenge under the registered key) whether the real handler may authenticate; CA call or add-identity => the selected handler is the first in list order that authenticates, earlier ones asked once, later ones never; none => AllAuthFailed, no Generate, no CA call, no add; a handler that crashes while authenticating never counts as authenticated (error returned, no CA call, no add, no later handler used); the first handler that authenticates cannot generate => error, no CA call, no add, no later handler used; a handler authenticates (and generates) => the run succeeds with exactly one request from that handler; challenges are 64 bytes, filled and not mostly predictable text (fewer than 17 zero bytes, at least 36 different byte values: both fail for random bytes with a chance below 1e-14), only under the registered key, pairwise distinct over the history. Non-trivial: an adversarial agent while the key file exists, or a reject before an accept in a list of >= 2."
 
 // TestC01Slow: a forwarded agent that takes seconds to answer the challenge (and then proves
 // possession, refuses, or answers with another key), under a run deadline that is longer than that.
